@@ -40,6 +40,7 @@ type act struct {
 	id        int
 	task      *simrt.Task
 	inLock    bool
+	tryWrite  bool // an exclusive TryLock is in flight
 	write     bool
 	invoke    int
 	cancel    context.CancelFunc
@@ -53,18 +54,35 @@ type act struct {
 }
 
 type world struct {
-	c           *core.Ctx
-	rw          bool
-	m           lockAPI
-	acts        []*act
-	writers     int
-	readers     int
-	stash       []func() // release functions kept for a later repeated release
-	shared      map[bool]sync.Locker
-	lockerHeavy bool
+	wiSeq        int  // counts exclusive acquires that were started (Lock, TryLock, Locker.Lock, driver probes)
+	mainTryWrite bool // the driver's exclusive TryLock probe is in flight
+	relInFlight  int  // release calls of exclusive holds that have not returned yet
+	c            *core.Ctx
+	rw           bool
+	m            lockAPI
+	acts         []*act
+	writers      int
+	readers      int
+	stash        []func() // release functions kept for a later repeated release
+	shared       map[bool]sync.Locker
+	lockerHeavy  bool
 }
 
 func (w *world) excl(write bool) bool { return !w.rw || write }
+
+// otherWriteIntent: somebody holds the lock exclusively, or another actor has an
+// exclusive acquire (Lock, TryLock, Locker.Lock) in flight.
+func (w *world) otherWriteIntent(a *act) bool {
+	if w.writers > 0 || w.mainTryWrite || w.relInFlight > 0 {
+		return true
+	}
+	for _, b := range w.acts {
+		if b != a && ((b.inLock && w.excl(b.write)) || b.tryWrite) {
+			return true
+		}
+	}
+	return false
+}
 
 // enter is called in the same atomic stretch in which the acquire returned.
 func (w *world) enter(a *act, write bool, how string) {
@@ -115,16 +133,31 @@ func (w *world) hold(a *act) {
 func (w *world) release(a *act, rel func()) {
 	c := w.c
 	w.leave(a)
+	// (for the library the lock stays held until the first release call is through)
+	excl := w.excl(a.write)
+	if excl {
+		w.wiSeq++
+		w.relInFlight++
+	}
 	if c.S.FaultP(120) {
 		// fault: the release function is called from two goroutines at the same time
 		c.S.Count("fault:double-release-concurrent")
 		c.Pub()
+		if excl {
+			w.relInFlight++
+		}
 		c.S.GoNamed("releaser2", func() {
 			c.Sub()
 			rel()
+			if excl {
+				w.relInFlight--
+			}
 		})
 	}
 	rel()
+	if excl {
+		w.relInFlight--
+	}
 	// fault: repeated release, now and/or later, possibly from another task
 	switch c.S.Fault(6) {
 	case 1:
@@ -185,9 +218,28 @@ func (w *world) opLock(a *act) {
 	c.Descf("actor %d: Lock(write=%v) cancelmode=%d", a.id, write, mode)
 	a.invoke = c.S.Steps()
 	a.inLock = true
+	if w.excl(write) {
+		w.wiSeq++
+	}
 	rel, err := w.m.Lock(ctx, write)
 	a.inLock = false
 	a.opseq++
+	if err == context.Canceled && a.cancelReq != 0 && rel == nil && w.rw && write && c.S.PlanP(600) {
+		// C02: after a cancelled write Lock the lock behaves as if that call had never
+		// been made. Probe at once (not at a quiescent point): if no writer holds and
+		// no other write acquire is or comes in flight while the probe runs, a read
+		// TryLock must succeed.
+		seq0, clear0 := w.wiSeq, !w.otherWriteIntent(a)
+		c.S.Count("probe:read-probe-after-cancelled-writer")
+		rel2, ok := w.m.TryLock(false)
+		if ok && rel2 != nil {
+			w.enter(a, false, "TryLock(read) after a cancelled write Lock")
+			w.leave(a)
+			rel2()
+		} else if !ok && clear0 && w.wiSeq == seq0 && !w.otherWriteIntent(a) {
+			c.Fail("C02.L2.cancelled-writer-left-trace", "a write Lock returned context.Canceled; a read TryLock issued right afterwards was refused although no writer holds the lock and no other write acquire was in flight")
+		}
+	}
 	if err != nil {
 		if err != context.Canceled {
 			c.Fail("C02.L2.error-kind", "Lock returned error %v", err)
@@ -221,7 +273,12 @@ func (w *world) opTryLock(a *act) {
 	write := !w.rw || c.S.PlanP(450)
 	c.Descf("actor %d: TryLock(write=%v)", a.id, write)
 	a.invoke = c.S.Steps()
+	if w.excl(write) {
+		w.wiSeq++
+		a.tryWrite = true
+	}
 	rel, ok := w.m.TryLock(write)
+	a.tryWrite = false
 	if !ok {
 		if rel != nil {
 			c.Fail("C01.I0.nonnil-release-on-false", "TryLock returned false together with a non-nil release function")
@@ -259,6 +316,9 @@ func (w *world) opLocker(a *act) {
 	a.seenBlk = 0
 	a.write = write
 	a.inLock = true
+	if w.excl(write) {
+		w.wiSeq++
+	}
 	l.Lock()
 	a.inLock = false
 	w.enter(a, write, "Locker.Lock")
@@ -266,7 +326,14 @@ func (w *world) opLocker(a *act) {
 	// preference that is a client-side deadlock, not a library defect)
 	w.hold(a)
 	w.leave(a)
+	if w.excl(write) {
+		w.wiSeq++
+		w.relInFlight++
+	}
 	l.Unlock()
+	if w.excl(write) {
+		w.relInFlight--
+	}
 }
 
 func (w *world) runActor(a *act, nops int) {
@@ -347,6 +414,10 @@ func (w *world) probes(final bool) {
 	c := w.c
 	_, wrs := w.blockedWaiters()
 	try := func(write bool, want bool, id string, why string) {
+		if w.excl(write) {
+			w.wiSeq++
+			w.mainTryWrite = true
+		}
 		rel, ok := w.m.TryLock(write)
 		if ok != want {
 			c.Fail(id, "TryLock(write=%v) at a quiescent point returned %v, expected %v: %s (holders: %d exclusive, %d shared; blocked writers: %d)", write, ok, want, why, w.writers, w.readers, len(wrs))
@@ -357,6 +428,7 @@ func (w *world) probes(final bool) {
 			}
 			rel()
 		}
+		w.mainTryWrite = false
 		c.S.Count("probe:trylock-probe")
 	}
 	if !w.rw {
